@@ -394,6 +394,22 @@ func Fail(t *testing.T, sub, msg string, c any) {
 	t.Errorf("%s: %s", sub, msg)
 }
 
+// FuzzFail is called by a native fuzz target whose oracle rejected an input:
+// the case is written as an ordinary replay envelope into $VERIF_FUZZ_DIR (the
+// driver turns each file into a VIOLATION line), then the fuzz run is failed.
+func FuzzFail(t *testing.T, sub, msg string, c any) {
+	t.Helper()
+	if dir := os.Getenv("VERIF_FUZZ_DIR"); dir != "" {
+		raw := mustRaw(c)
+		h := fnv.New64a()
+		_, _ = h.Write(raw)
+		b, _ := json.MarshalIndent(Envelope{Sub: sub, Case: raw, Note: msg}, "", " ")
+		_ = os.MkdirAll(dir, 0o755)
+		_ = os.WriteFile(filepath.Join(dir, fmt.Sprintf("%s-%016x.json", sub, h.Sum64())), b, 0o644)
+	}
+	t.Fatalf("%s: %s", sub, msg)
+}
+
 // ---------------------------------------------------------------------------
 // replay
 
